@@ -241,17 +241,18 @@ def _generic_run(self, cspec, argvals):
     for j in range(cspec.get('nlog', 0)):
         self.logger.info(f'marker {runid} step {j}')
         self.save_to_run_info({'marker': runid, 'n': j + 1})
-    cont_done = None
     if kind == 'cont':
-        # resumable work: every run (also a failing one) adds one step file to the kept work directory
+        # resumable work: steps already present in the kept work directory are not redone
         data = self.get_data_object()
         cont_done = len(list(data.dir.glob('step_*')))
-        (data.dir / f'step_{cont_done}').write_text(str(cont_done))
+        rec['resumed_from'] = cont_done
     if fault and fault[0] == 'raise_before_return':
         del ST.run_faults[slug]
         ST.fired.append(['runfault', slug, 'raise_before_return'])
         if kind == 'dir':
             V.write_dir_spec({'partial.txt': 'partial'}, self.get_data_object().dir)
+        if kind == 'cont' and cont_done < cspec.get('cont_steps', 1):
+            (data.dir / f'step_{cont_done}').write_text(str(cont_done))
         raise RunFault('injected: raise before return')
     if fault and fault[0] == 'mistyped':
         del ST.run_faults[slug]
@@ -268,8 +269,6 @@ def _generic_run(self, cspec, argvals):
             return list(value) + [{1, 2}]
         if kind in ('gen', 'genlazy'):
             return (x for x in list(value) + [{1, 2}])
-        if kind == 'listnp':
-            return list(value) + [_Mistyped()]
         # other kinds have no unserializable member of their type: behave as mistyped
         return _Mistyped()
     if kind in ('gen', 'genlazy'):
@@ -289,13 +288,17 @@ def _generic_run(self, cspec, argvals):
         V.write_dir_spec(value, data.dir)
         return data
     if kind == 'cont':
-        data = self.get_data_object()
         steps = cspec.get('cont_steps', 1)
-        if cont_done + 1 >= steps:
-            for q in list(data.dir.iterdir()):
+        for sidx in range(cont_done, steps):
+            (data.dir / f'step_{sidx}').write_text(str(sidx))
+        for q in list(data.dir.iterdir()):
+            if q.is_dir():
+                import shutil
+                shutil.rmtree(q)
+            else:
                 q.unlink()
-            V.write_dir_spec(value, data.dir)
-            data.finished()
+        V.write_dir_spec(value, data.dir)
+        data.finished()
         return data
     if kind == 'mem':
         return value
@@ -339,7 +342,7 @@ def build_classes(world):
             inp['_slug'] = tgt['slug']
             inp['_kind'] = tgt['kind']
             inp['_arg'] = tgt['name']
-            inp['_lookup'] = A.fullname(inp.get('rel') or None, tgt['slug'])
+            inp['_lookup'] = tgt['name']
         meta = {}
         in_list = []
         par_list = []
